@@ -199,14 +199,16 @@ def pow (x y : I) : I := exp (mul y (log x))
 
 /-! ### π, atan -/
 
-/-- atan series for |z| ≤ 1/2 (alternating; remainder ≤ first omitted term) -/
-def atanSmall (z : Rat) : I :=
-  let n := 200
+/-- atan series with n+1 terms (alternating; remainder ≤ first omitted term |z|^(2n+3)/(2n+3)) -/
+def atanSmallN (n : Nat) (z : Rat) : I :=
   let z2 := z * z
   let (s, pw) := (List.range (n + 1)).foldl (fun (s, pw) k =>
     (s + (if k % 2 == 0 then pw else -pw) / ((2 * k + 1 : Nat) : Rat), pw * z2)) ((0 : Rat), z)
   let rem := ratAbs pw / ((2 * n + 3 : Nat) : Rat)
   mk' (s - rem) (s + rem)
+
+/-- atan series for |z| ≤ 1/2 with 201 terms -/
+def atanSmall (z : Rat) : I := atanSmallN 200 z
 
 /-- Machin: π = 16 atan(1/5) − 4 atan(1/239) -/
 def pi : I := sub (scale 16 (atanSmall (1 / 5))) (scale 4 (atanSmall (1 / 239)))
@@ -219,7 +221,7 @@ def atanQ (q : Rat) : I :=
   let x1 := red x
   let x2 := red x1
   let x3 := red x2      -- |x3| < tan(π/16) < 0.2 for any q
-  let a := hull (atanSmall x3.lo) (atanSmall x3.hi)
+  let a := hull (atanSmallN 40 x3.lo) (atanSmallN 40 x3.hi)
   scale 8 a
 
 /-! ### standard normal pdf / cdf -/
